@@ -130,8 +130,8 @@ def run_unit(u):
     for _ in range(u['n']):
         pragma = False
         how = rng.choice(['api', 'html.parser', 'lxml', 'html5lib', 'xml', 'api-xml', 'xml', 'api-xml'])
-        root, ws = trees.gen_tree(rng, max_nodes=rng.choice([5, 12, 25]),
-                                  names=trees.NAMES + (['iframe', 'iframe'] if how in ('api', 'html.parser') and rng.random() < .5 else []))
+        framed = how in ('api', 'html.parser') and rng.random() < .5
+        root, ws = trees.gen_tree(rng, max_nodes=rng.choice([5, 12, 25]), names=trees.NAMES + (['iframe', 'iframe'] if framed else []), p_dup=.5)
         xmlish = how in ('xml', 'api-xml')
         if xmlish:
             nsify(rng, root)
@@ -174,6 +174,39 @@ def run_unit(u):
                 last_['pseudos'] = [p for p in last_['pseudos'] if p[0] not in ('scope', 'amp')] + [('pc', 'lang(fr)')]
                 if rng.random() < .5:
                     last_['tag'], last_['ids'], last_['classes'], last_['attrs'] = None, [], [], []
+            if framed and rng.random() < .35:
+                # one alternative that makes the matcher evaluate an HTML-only pseudo-class on many elements, next to alternatives whose
+                # combinators have to cross an iframe boundary (whatever the first one sets up must be undone before the others run)
+                ast = sels.gen_list(rng, 2, cfg)
+                first_ = [c for c in ast[0] if isinstance(c, dict)][-1]
+                first_['tag'], first_['ids'], first_['classes'], first_['attrs'] = None, [], [], []
+                first_['pseudos'] = [('pc', rng.choice(pcs[:8]))]
+                # ... and the second alternative names an element inside an iframe through an ancestor outside of it
+                pairs_ = []
+
+                def walk_(e_, chain_):
+                    for k_ in e_.kids:
+                        if isinstance(k_, E):
+                            if 'iframe' in chain_:
+                                i_ = chain_.index('iframe')
+                                for anc_ in chain_[:i_ + 1]:
+                                    pairs_.append((anc_, k_.name))
+                            walk_(k_, chain_ + [k_.name])
+                walk_(root, [root.name])
+                if pairs_:
+                    anc_, inner_ = rng.choice(pairs_)
+                    mk_ = lambda n_: {'tag': (None, n_), 'ids': [], 'classes': [], 'attrs': [], 'pseudos': []}  # noqa: E731
+                    alt_ = [mk_(anc_), rng.choice([' ', ' ', '>']), mk_(inner_)] if rng.random() < .8 else [mk_(anc_), ' ', mk_('iframe'), ' ', mk_(inner_)]
+                    ast = [ast[0], alt_]
+                bump('html_only_next_to_combinators_in_framed_trees')
+            if rng.random() < .1:
+                # :scope inside a compound that other elements (twins of the call target included) are tested against
+                cx_ = rng.choice(ast)
+                comps_ = [c for c in cx_ if isinstance(c, dict)]
+                c_ = rng.choice(comps_)
+                if not any(p[0] in ('scope', 'amp') for p in c_['pseudos']):
+                    c_['pseudos'] = c_['pseudos'] + [('scope',)]
+                    bump('scope_added')
             if rng.random() < .08:
                 # the scope marker written *before* another flag-like pseudo-class of the same compound (and after one)
                 cx = rng.choice(ast)
@@ -214,7 +247,7 @@ def run_unit(u):
 
                 # --- compiled methods
                 e_sel = rec.call('c.select', comp.select, tgt)
-                chk('select', e_sel, None if unspec else exp_sel)
+                chk('select', e_sel, ('partial', exp_sel, [e.obj for e in desc if e not in Tm and e not in Um]) if unspec else exp_sel)
                 chk('iselect==select', rec.call('c.iselect', comp.iselect, tgt), ('same', e_sel))
                 chk('select_one', rec.call('c.select_one', comp.select_one, tgt), ('first', e_sel), 'one')
 
@@ -353,6 +386,14 @@ def run_unit(u):
                         if desc_ == 'select' and ok and expected and len(expected) < len(desc):
                             bump('nontrivial')
                             sigs.add(sig(sels.shape(ast), cases.tree_shape(case0.top_sn)[:40], tk))
+                    elif expected[0] == 'partial':
+                        # some elements are unspecified: the definitely matching ones must be there, the definitely non-matching ones not
+                        bump('partially_specified')
+                        gi = set(ids(got))
+                        miss = [x for x in expected[1] if id(x) not in gi]
+                        extra_ = [x for x in expected[2] if id(x) in gi]
+                        ok = not miss and not extra_ and len(gi) == len(got)
+                        detail = 'missing %s, unexpected %s (elements the reference leaves open are not counted)' % (cases.labels(miss), cases.labels(extra_))
                     elif expected[0] == 'unspec':
                         bump('unspecified')
                     elif expected[0] == 'is':
